@@ -130,11 +130,8 @@ def make_plan(seed, tier):
         n_s = 64
     else:
         for typ, n in combos:
-            if n <= 10:
-                jobs.append(_job("L16", rng, K=16, D=256, sizes=[n], types=typ, preempt=rng.choice(PREEMPT), **{"yield": rng.randint(0, 1)}))
-            else:
-                # stated bound: n = 11, 12 at 16 threads x 32 draws (pooled 512 draws per type)
-                jobs.append(_job("L16b", rng, K=16, D=32, sizes=[n], types=typ, preempt=rng.choice(PREEMPT), **{"yield": rng.randint(0, 1)}))
+            # the literal 16-thread clause for EVERY size (n = 12: 262 144 words in one run, about an hour of interpretation)
+            jobs.append(_job("L16", rng, K=16, D=256, sizes=[n], types=typ, preempt=rng.choice(PREEMPT), **{"yield": rng.randint(0, 1)}))
         for n in (7, 8, 9, 10):
             jobs.append(_job("P16", rng, K=16, D=16, sizes=[n], types="both", preempt=rng.choice(PREEMPT), **{"yield": rng.randint(0, 1)}))
         jobs.append(_job("H", rng, K=1, main=1, D=256, sizes=list(range(13)), types="both", preempt=rng.choice(PREEMPT), **{"yield": rng.randint(0, 1)}))
